@@ -1866,6 +1866,13 @@ func (c *streamableServerConn) Write(ctx context.Context, msg jsonrpc.Message) e
 	if relatedRequest.IsValid() {
 		if streamID, ok := c.requestStreams[relatedRequest]; ok {
 			s = c.streams[streamID]
+		} else if !responseTo.IsValid() && !c.stateless {
+			// The message was made in the context of a request that has already
+			// been answered: as documented on [StreamableServerTransport], it is
+			// routed to the standalone SSE stream. (This matters for the
+			// best-effort notifications/cancelled of a nested call, which is sent
+			// asynchronously and may lose the race against the handler's response.)
+			s = c.streams[""]
 		}
 	} else {
 		// In stateless mode there will always be only one stream per connection.
